@@ -43,6 +43,7 @@ const zFinish = "**\x18B0800000000022d\r\x8a"
 
 type c19Helper struct {
 	kind     string
+	cmds     []*vexec.Cmd // every helper process that was started
 	started  int
 	serverOK func() bool // the remote side has sent its finish header
 }
@@ -52,6 +53,7 @@ func (h *c19Helper) Start(c *vexec.Cmd) error {
 	if h.kind == "missing" {
 		return errors.New("exec: \"" + c.Path + "\": executable file not found in $PATH")
 	}
+	h.cmds = append(h.cmds, c)
 	exit := func(code int) {
 		c.Exited, c.ExitCode = true, code
 		c.Stdout.CloseWrite()
@@ -115,6 +117,7 @@ type c19Obs struct {
 	stillTransfering bool
 	remoteCancelled  bool // the remote side itself sent a cancel sequence
 	inputFirst       string
+	helperLeft       int // helper processes still running when everything has settled
 }
 
 func c19Exec(p c19Params) vs.ExecFn {
@@ -188,6 +191,11 @@ func c19Exec(p c19Params) vs.ExecFn {
 					// another zmodem implementation: the classic 8 x CAN + 10 x BS attention string
 					say(strings.Repeat("\x18", 8) + strings.Repeat("\x08", 10))
 					bye()
+				case "cancel-at-100ms":
+					// the remote side gives up just as the product's 100 ms grace ends: before, while or after the helper is launched
+					vtime.Sleep(100 * time.Millisecond)
+					say(string(zmodemCancelFullSequence))
+					bye()
 				case "cancel-after":
 					vs.WaitUntilOrTimeout("remote.wait", 25*time.Second, func() bool { return fromClient() })
 					say(string(zmodemCancelFullSequence))
@@ -253,6 +261,11 @@ func c19Exec(p c19Params) vs.ExecFn {
 			o.probe2 = bytes.Count(term.Written, []byte("probe-out-2"))
 			o.probeIn = bytes.Count(c2s.Written, []byte("probe-in"))
 			o.helperStarts = helper.started
+			for _, c := range helper.cmds {
+				if !c.Exited {
+					o.helperLeft++
+				}
+			}
 			vs.Peek(func() {
 				if z := filter.zmodem.Load(); z != nil {
 					o.stillTransfering = z.isTransferringFiles()
@@ -277,6 +290,8 @@ func c19Exec(p c19Params) vs.ExecFn {
 		case strings.HasPrefix(p.Server, "cancel-before") && p.Veto == "" && p.CtrlCMs < 0 && s.Stall == 0 && !bytes.Contains(o.term, []byte("remote: transfer ended")):
 			// (without a Ctrl-C: after one, output is discarded until the remote side has been quiet, by design)
 			violation = "what the remote side printed after cancelling (before any helper ran) never reached the terminal"
+		case o.helperLeft > 0:
+			violation = fmt.Sprintf("%d local helper process(es) still running after the session ended and everything settled: never told to stop nor killed", o.helperLeft)
 		case o.probeIn != 1:
 			violation = fmt.Sprintf("typed input reached the remote side %d times after the remote had been quiet for 0.7 s and 1.4 s (input is still being discarded)", o.probeIn)
 		case o.probe2 != 1:
@@ -348,7 +363,7 @@ func init() {
 	vs.Register(&vs.Check{
 		ID:    "C19",
 		Level: "model_checking",
-		Rule: "real filter with zmodem enabled x helper behaviour {missing, exits 0, exits 1, runs 0/1/3 chunks then finishes, never outputs, outputs after the remote finished} x remote behaviour {finishes, cancels before the helper starts (lrzsz cancel string in one read, cut into two reads, and the 8 x CAN form) / after it started, keeps sending 2 s, quiet} x Ctrl-C {none, 0 ms, 150 ms, 1 s after the header} x upload/download, " +
+		Rule: "real filter with zmodem enabled x helper behaviour {missing, exits 0, exits 1, runs 0/1/3 chunks then finishes, never outputs, outputs after the remote finished} x remote behaviour {finishes, cancels before the helper starts (lrzsz cancel string in one read, cut into two reads, the 8 x CAN form, and exactly when the 100 ms grace ends) / after it started, keeps sending 2 s, quiet} x Ctrl-C {none, 0 ms, 150 ms, 1 s after the header} x upload/download, " +
 			"plus headers vetoed by a cancel sequence or 'cannot open'; all schedules within 1 (quick) / 2 (thorough) deviations of the default one, a timer landing first being one of them; then a transparency probe 0.7 s and 1.4 s after the remote went quiet",
 		Assumptions: []string{"the local rz/sz is a model (vexec): it leaves when killed or sent the cancel sequence, real lrzsz is not installed", "the remote rz/sz is scripted; after a cancel it prints a line and a prompt except in the 'quiet' behaviour"},
 		TraceNote:   "explored directly on the implementation; the number counts executions replayed from recorded choice lists",
@@ -361,7 +376,7 @@ func init() {
 			}
 			for _, up := range []bool{false, true} {
 				for _, h := range []string{"missing", "exit0", "exit1", "run0", "run1", "run3", "silent", "late"} {
-					for _, srv := range []string{"finish", "cancel-before", "cancel-before-split", "cancel-before-8can", "cancel-after", "keeps", "quiet"} {
+					for _, srv := range []string{"finish", "cancel-before", "cancel-before-split", "cancel-before-8can", "cancel-at-100ms", "cancel-after", "keeps", "quiet"} {
 						for _, cc := range []int{-1, 0, 150, 1000} {
 							if cc > 0 && tier != "thorough" && !(h == "run3" || h == "silent" || h == "missing") {
 								continue
